@@ -353,7 +353,8 @@ def gen_cases(run):
     tasks = ['reg1', 'reg2', 'bin', 'multi']
     routings = ['hard', 'soft', 'tuned']
     threads = [None, 1, 3]
-    envs = [None, 'max_split_size_mb:64', 'expandable_segments:True', '']     # '' = set but empty
+    envs = [None, 'max_split_size_mb:64', 'expandable_segments:True', '',     # '' = set but empty
+            'expandable_segments:False,max_split_size_mb:128', 'max_split_size_mb:128,']   # the library's own option with another value; a trailing comma
     splits = ['top_vector_agop_on_subset', 'random_agop_on_subset', 'top_pc_agop_on_subset', 'random_pca', 'pca', 'linear',
               'rf_criterion', 'fixed_vector', 'random']
     n_main = 48 if run.tier == 'quick' else 800
@@ -371,7 +372,7 @@ def gen_cases(run):
             split = 'pca'
         cases.append(dict(
             family='call-sequences', kernel=kernel, diag=(k % 3 == 1) and kernel != 'sum_power_laplace', task=task,
-            routing=routings[k % 3], n_threads=threads[(k // 3) % 3], env0=envs[(k // 2) % 4],
+            routing=routings[k % 3], n_threads=threads[(k // 3) % 3], env0=envs[(k // 2) % len(envs)],
             threads0=[2, 4][k % 2], container_x=cx, container_y=cy, n=n, d=r.choice([3, 5]), max_leaf_size=L,
             iters=r.choice([0, 1, 1, 2]), split_method=split, seed=r.randint(0, 10 ** 6), dseed=r.randint(0, 10 ** 6),
             classification_mode=r.choice(['zero_one', 'prevalence']), n_trees=r.choice([1, 1, 2]),
@@ -414,7 +415,7 @@ def gen_cases(run):
         logistic = solver == 'log_reg'
         cases.append(dict(
             family='call-sequences', kernel=['l2', 'l1', 'l2_high_dim'][k % 3], diag=False, task='bin' if logistic else ['reg1', 'multi'][(k // 4) % 2],
-            routing=['hard', 'tuned'][(k // 2) % 2], n_threads=[None, 2][k % 2], env0=envs[k % 4], threads0=[2, 4][k % 2],
+            routing=['hard', 'tuned'][(k // 2) % 2], n_threads=[None, 2][k % 2], env0=envs[k % len(envs)], threads0=[2, 4][k % 2],
             container_x=['tensor', 'ndarray32'][(k // 2) % 2], container_y=['tensor', 'ndarray32', 'tensor', 'ndarray64'][k % 4],
             n=[24, 44, 24, 90][(k // 2) % 4], d=3, max_leaf_size=24, iters=[1, 2][k % 2], split_method=['pca', 'random'][k % 2],
             seed=r.randint(0, 10 ** 6), dseed=r.randint(0, 10 ** 6), classification_mode='zero_one', n_trees=1,
